@@ -53,7 +53,9 @@ ASSUMPTIONS = [
     'a downstream connection (a sink component is attached)',
     'method=fd declarations are not exact and are left out; isinf/isnan/array-creation functions are '
     'not differentiable building blocks and are left out',
-    'tolerance 1e-9 relative to max(1, |block|max): complex step is exact to round-off',
+    'tolerance 1e-11 (1e-10 with the non-dyadic unit conversions) relative to max(1, |block|max): '
+    'complex step is exact to round-off; calibrated on the whole quick tier, where the largest '
+    'deviation without unit conversion is below 1e-12',
     'the sparsity used by a coloring is measured numerically by OpenMDAO at the first point; a '
     'second point is only demanded where the exact Jacobian has the same nonzero pattern '
     '(maximum/minimum/max/min select different entries at different points - documented limitation '
@@ -64,7 +66,7 @@ ASSUMPTIONS = [
 MIN_NONTRIVIAL = {'quick': 18000, 'thorough': 150000}
 CAP_S = {'thorough': 1500}
 
-TOL = 1.0e-9
+TOL = float(os.environ.get('OMV_C14_TOL', '1.0e-11'))
 
 X, A, K = ('v', 'x'), ('v', 'a'), ('k', 'k')
 N2, NH, N3, NM = ('n', 2.0), ('n', 0.5), ('n', 3), ('n', -1.5)
@@ -185,6 +187,10 @@ COMBOS_Q2 = [((3,), (3,)), ((2, 2), (2, 2)), ((3,), (1,)), ((1,), (3,)), ((2, 2)
              ((3,), (2, 2))]
 
 
+COMBOS_T2 = COMBOS_Q2 + [((2, 3), (3,)), ((2, 3), (2, 3)), ((), (3,)), ((3,), ()), ((), ()),
+                         ((2, 3), (3, 2))]
+
+
 def _shape_combos(tree_list, shapes):
     """all assignments of shapes to the variables (and the named constant) of the trees; `shapes`
     is a list of shapes (full product) or a list of explicit 2-variable combinations"""
@@ -238,10 +244,10 @@ def cases(tier, seed):
     else:
         specs.extend(_specs([[t] for t in one], SHAPES_T, OPTS_SINGLE + OPTS_PAIRS))
         two = two_op_trees(True)
-        specs.extend(_specs([[t] for t in two], SHAPES_T, [{}]))
-        specs.extend(_specs([[t] for t in two[::3]], SHAPES_MAIN, OPTS_SINGLE[1:] + OPTS_PAIRS[:6]))
-        specs.extend(_specs([[t] for t in three_op_trees()], SHAPES_MAIN, [{}, {'color': 'declared'},
-                                                                           {'diag': True}]))
+        specs.extend(_specs([[t] for t in two], COMBOS_T2, [{}]))
+        specs.extend(_specs([[t] for t in two[::9]], COMBOS_Q2, OPTS_SINGLE[1:] + OPTS_PAIRS[:6]))
+        specs.extend(_specs([[t] for t in three_op_trees()], COMBOS_Q2[:4],
+                            [{}, {'color': 'declared'}]))
         pairs = [[p, q] for p in PAIR_LIST for q in PAIR_LIST]
         specs.extend(_specs(pairs, [(3,), (2, 2), (1,)], OPTS_TWO_EXPR))
     for s in specs:
@@ -466,6 +472,19 @@ def build(spec, ref):
     return p, comp, ['c.' + o for o in outnames], wrt, conv
 
 
+def _reseed():
+    """own the nondeterminism: ExecComp's sparsity detection perturbs the inputs with random
+    numbers (module generator of openmdao.utils.array_utils and np.random); every execution of a
+    spec starts from the same generator state so that a failure replays identically"""
+    np.random.seed(20260921)
+    try:
+        import openmdao.utils.array_utils as au
+        if hasattr(au, '_randgen'):
+            au._randgen = np.random.default_rng(20260921)
+    except Exception:
+        pass
+
+
 def _maxabs(a):
     a = np.asarray(a)
     return float(np.max(np.abs(a))) if a.size else 0.0
@@ -537,6 +556,9 @@ def _run(spec):
 
     def V(what, msg, blk=None, **kw):
         c = cls if blk is None else cls.split('|in=')[0] + '|blk=' + blk
+        if what.startswith('raises_'):
+            # the exception slug pins the root cause: keep only option set and output classes
+            c = cls.split('|')[0] + '|out=' + cls.split('|out=')[1]
         d = {'sig': 'C14:%s:%s' % (what, c), 'case': case, 'what': what,
              'msg': '%s [%s] shapes=%s k=%s opt=%s: %s' % (what, src, spec['shapes'], spec['kshape'],
                                                             spec['opt'], msg)}
@@ -544,7 +566,10 @@ def _run(spec):
         vio.append(d)
 
     names = ref['names']
+    # the degF/cm conversions of the units options are not dyadic: one more digit of slack
+    tol = TOL * 10.0 if spec['opt'].get('units') else TOL
     buf = io.StringIO()
+    _reseed()
     stage = 'build'
     evals = 0
     colored = False
@@ -574,7 +599,7 @@ def _run(spec):
                         V('output_shape', 'point %s: %s has shape %s, declared %s' % (
                             label, o, got.shape, osh))
                     err = _maxabs(got.ravel() - want.ravel())
-                    if not err <= TOL * max(1.0, _maxabs(want)):
+                    if not err <= tol * max(1.0, _maxabs(want)):
                         V('output', 'point %s (#%d): %s = %s, NumPy value %s' % (
                             label, ipt, o, got.ravel().tolist(), want.ravel().tolist()),
                           observed=got, expected=want)
@@ -590,7 +615,7 @@ def _run(spec):
                                 label, o, w, got.shape, want.shape), blk=blk)
                             continue
                         err = _maxabs(got - want)
-                        if not err <= TOL * max(1.0, _maxabs(want)):
+                        if not err <= tol * max(1.0, _maxabs(want)):
                             V('partials', 'point %s (#%d): d%s/d%s = %s, exact %s' % (
                                 label, ipt, o, w, np.round(got, 10).tolist(),
                                 np.round(want, 10).tolist()), blk=blk, observed=got,
